@@ -324,26 +324,38 @@ def dirsBelow (base : APath) : List Name → List APath
   | [_] => []
   | n :: r => (base ++ [n]) :: dirsBelow (base ++ [n]) r
 
+def expTop (t : APath) (name : String) : APath × Bool := (t ++ [name.toList], true)
+
+/-- a layer: its directory, `contents.plist`, `layerinfo.plist` iff colour or lib, one glif per contents entry -/
+def expLayer (t : APath) (l : ALayer) : List (APath × Bool) :=
+  let d := t ++ namesOf (Path.parse l.dir)
+  [(d, false), (d ++ [contentsFile.toList], true)] ++
+  (if l.info = 0 then [] else [(d ++ [layerinfoFile.toList], true)]) ++
+  l.entries.map fun e => (d ++ namesOf (Path.parse e.file), true)
+
+/-- a data entry: `data/`, the directories on the way, the file -/
+def expDataItem (t : APath) (key : Path.P) : List (APath × Bool) :=
+  (t ++ ["data".toList], false) :: (dirsBelow (t ++ ["data".toList]) (namesOf key)).map (·, false) ++
+  [(t ++ ["data".toList] ++ namesOf key, true)]
+
+/-- `images/` (flat) iff there is an image -/
+def expImages (t : APath) (keys : List Path.P) : List (APath × Bool) :=
+  if keys.isEmpty then [] else
+    (t ++ ["images".toList], false) :: keys.map fun key => (t ++ ["images".toList] ++ namesOf key, true)
+
+def hasLibFile (f : AFont β) : Bool := !(f.lib.isEmpty && ((dumpObjectLibs f.info.guides).getD []).isEmpty)
+
 /-- the paths below (and including) the target that a font with safe paths determines: `(path, isFile)` -/
 def expectedPaths (f : AFont β) (t : APath) : List (APath × Bool) :=
-  let top (name : String) : APath × Bool := (t ++ [name.toList], true)
-  let hasLib := !(f.lib.isEmpty && ((dumpObjectLibs f.info.guides).getD []).isEmpty)
-  [(t, false), top "metainfo.plist"] ++
-  (if f.info.isEmpty then [] else [top "fontinfo.plist"]) ++
-  (if hasLib then [top "lib.plist"] else []) ++
-  (if f.groups = 0 then [] else [top "groups.plist"]) ++
-  (if f.kerning = 0 then [] else [top "kerning.plist"]) ++
-  (if f.features = 0 then [] else [top "features.fea"]) ++
-  [top "layercontents.plist"] ++
-  f.layers.flatMap (fun l =>
-    let d := t ++ namesOf (Path.parse l.dir)
-    [(d, false), (d ++ [contentsFile.toList], true)] ++
-    (if l.info = 0 then [] else [(d ++ [layerinfoFile.toList], true)]) ++
-    l.entries.map fun e => (d ++ namesOf (Path.parse e.file), true)) ++
-  f.data.items.flatMap (fun kc =>
-    (t ++ ["data".toList], false) :: (dirsBelow (t ++ ["data".toList]) (namesOf kc.1)).map (·, false) ++
-    [(t ++ ["data".toList] ++ namesOf kc.1, true)]) ++
-  (if f.images.items.isEmpty then [] else
-    (t ++ ["images".toList], false) :: f.images.items.map fun kc => (t ++ ["images".toList] ++ namesOf kc.1, true))
+  [(t, false), expTop t "metainfo.plist"] ++
+  (if f.info.isEmpty then [] else [expTop t "fontinfo.plist"]) ++
+  (if hasLibFile f then [expTop t "lib.plist"] else []) ++
+  (if f.groups = 0 then [] else [expTop t "groups.plist"]) ++
+  (if f.kerning = 0 then [] else [expTop t "kerning.plist"]) ++
+  (if f.features = 0 then [] else [expTop t "features.fea"]) ++
+  [expTop t "layercontents.plist"] ++
+  f.layers.flatMap (expLayer t) ++
+  (f.data.items.map (·.1)).flatMap (expDataItem t) ++
+  expImages t (f.images.items.map (·.1))
 
 end FontSave
